@@ -727,27 +727,35 @@ int rtosc::canonicalize_arg_vals(rtosc_arg_val_t* av, size_t n,
     return errors_found;
 }
 
+//the symbol an integer is printed as, if it has one that can be printed bare
+//(a word of the text format would be read back as another type)
+static const char* printable_symbol(int i, Port::MetaContainer meta)
+{
+    char mapbuf[20] = "map ";
+    snprintf(mapbuf + 4, 16, "%d", i);
+    const char* val = meta[mapbuf];
+    static const char* const reserved[] =
+        { "true", "false", "nil", "inf", "now", "immediately", "MIDI", "BLOB" };
+    for(size_t r = 0; val && r < sizeof(reserved)/sizeof(*reserved); ++r)
+        if(!strcmp(val, reserved[r]))
+            val = NULL;
+    return val;
+}
+
 void rtosc::map_arg_vals(rtosc_arg_val_t* av, size_t n,
                          Port::MetaContainer meta)
 {
-    char mapbuf[20] = "map ";
-
     //an array has one element type: symbols only if every element has one
     if(n && av->type == 'a')
         for(size_t i = 1; i < n; ++i)
-            if(av[i].type == 'i')
-            {
-                snprintf(mapbuf + 4, 16, "%d", av[i].val.i);
-                if(!meta[mapbuf])
-                    return;
-            }
+            if(av[i].type == 'i' && !printable_symbol(av[i].val.i, meta))
+                return;
 
     for(size_t i = 0; i < n; ++i, ++av)
     {
         if(av->type == 'i')
         {
-            snprintf(mapbuf + 4, 16, "%d", av->val.i);
-            const char* val = meta[mapbuf];
+            const char* val = printable_symbol(av->val.i, meta);
             if(val)
             {
                 av->type = 'S';
